@@ -404,6 +404,26 @@ func (a *Analysis) ruleBuiltins() {
 					known = true
 				}
 			}
+			atRoot := (sc.Kind == OwRoot || r.Life == LSingleton) && h.rootScope != nil
+			if atRoot {
+				// constructed at provider level (singletons at Build, anything resolved from
+				// the provider): the provider's own root scope and its context
+				switch d.Builtin {
+				case BScope:
+					if s, ok := rec.Ptr.(godi.Scope); ok && !sameIface(s, h.rootScope) {
+						a.add("C18", "C18.inject", "root-scope/"+lifeNames[r.Life], "r%d#%d constructed at provider level received scope %s, the provider's root scope is %s", inv.Reg, inv.N, scopeID(s), scopeID(h.rootScope))
+					}
+				case BContext:
+					if c, ok := rec.Ptr.(context.Context); ok {
+						if c != h.rootScope.Context() {
+							a.add("C18", "C18.inject", "root-context/"+lifeNames[r.Life], "r%d#%d constructed at provider level received a context that is not the root scope's Context()", inv.Reg, inv.N)
+						}
+						if s, err := godi.FromContext(c); err != nil || !sameIface(s, h.rootScope) {
+							a.add("C18", "C18.ctx", "root-fromcontext/"+lifeNames[r.Life], "r%d#%d: FromContext(injected context) = %v, %v; expected the provider's root scope", inv.Reg, inv.N, scopeID(s), err)
+						}
+					}
+				}
+			}
 			switch d.Builtin {
 			case BProvider:
 				if p, ok := rec.Ptr.(godi.Provider); !ok || !sameIface(p, prov) {
